@@ -261,6 +261,8 @@ class Funcs:
             ch = node.children
         elif hasattr(node, '__dataclass_fields__'):
             ch = [getattr(node, name) for name in node.__dataclass_fields__]
+        elif isinstance(node, (int, float, str, bytes)):
+            ch = []  # a scalar registered as a (childless) custom node
         else:
             ch = list(node)
         n = len(ch)
